@@ -147,7 +147,7 @@ def run_tlc(ctx, module, constants, extra, name=None, workers=1, timeout=900, xm
     else:
         m = re.search(r"Finished computing initial states: (\d+) distinct state", out)
         res["generated"] = res["distinct"] = int(m.group(1)) if m else 0
-    res["violated"] = bool(re.search(r"Invariant \S+ is violated|is violated|Assumption .* is false", out))
+    res["violated"] = bool(re.search(r"is violated|Assumption .* is false|is equal to FALSE", out))
     res["error"] = ("Error:" in out) and not res["violated"]
     if res["error"] or (p.returncode != 0 and not res["violated"]):
         tail = "\n".join(l for l in out.splitlines() if not l.startswith(("Semantic", "Parsing", "Linting")))[-3000:]
